@@ -82,6 +82,7 @@ structure St where
   els : List Bool := []          -- only used after Genesis
   numOps : Nat := 0
   lastCodeSep : Nat := 0
+  sepSeen : Bool := false        -- thread.codeSepSeen: an OP_CODESEPARATOR was executed in the current script
   early : Bool := false
   deriving Repr, DecidableEq, Inhabited
 
@@ -303,9 +304,11 @@ def opCheckSig (env : Env) (sub : List POp) (s : St) : Res :=
     match sigDigest env c code shf with
     | none => .err "ErrSigHash"
     | some h =>
-      if !env.H.pubKeyOk pk then .ok (pushBool false s) else
+      let failed : Res := if hasFlag env.flags fNullFail && sig.length > 0 then .err "ErrNullFail"
+                          else .ok (pushBool false s)
+      if !env.H.pubKeyOk pk then failed else
       match env.H.verify (hasFlag env.flags fStrictEnc || hasFlag env.flags fDERSig) sig h pk with
-      | none => .ok (pushBool false s)
+      | none => failed
       | some ok =>
         if !ok && hasFlag env.flags fNullFail && sig.length > 0 then .err "ErrNullFail"
         else .ok (pushBool ok s)
@@ -387,7 +390,9 @@ def opCheckMultiSig (env : Env) (sub : List POp) (s : St) : Res :=
     | dummy :: r5 =>
     if hasFlag env.flags fStrictMultiSig && dummy.length != 0 then .err "ErrSigNullDummy" else
     let s := { s with ds := r5, numOps := numOps }
-    let script := sigs.foldl (fun sc sg => removeOpcode (removeOpcodeByData sc sg) 0xab) sub
+    let legacySig (sg : Bytes) : Bool := !hasFlag env.flags fForkID || (sg.getLast?.getD 0).toNat &&& 0x40 != 0x40
+    let script := sigs.foldl (fun sc sg =>
+      if sg.length > 0 && !legacySig sg then sc else removeOpcode (removeOpcodeByData sc sg) 0xab) sub
     match env.ctx with
     | none => .panic "checkmultisig-without-tx"
     | some c =>
@@ -594,14 +599,14 @@ def handler (env : Env) (cur : List POp) (off : Nat) (o : POp) (s : St) : Res :=
   | 0xa8 => match s.ds with | a :: r => .ok { s with ds := env.H.sha256 a :: r } | _ => stackErr
   | 0xa9 => match s.ds with | a :: r => .ok { s with ds := env.H.ripemd160 (env.H.sha256 a) :: r } | _ => stackErr
   | 0xaa => match s.ds with | a :: r => .ok { s with ds := env.H.sha256 (env.H.sha256 a) :: r } | _ => stackErr
-  | 0xab => .ok { s with lastCodeSep := off }                         -- CODESEPARATOR
+  | 0xab => .ok { s with lastCodeSep := off, sepSeen := true }        -- CODESEPARATOR
   | 0xac | 0xad =>                                                   -- CHECKSIG(VERIFY)
-    let sub := if s.lastCodeSep > 0 then cur.drop (s.lastCodeSep + 1) else cur
+    let sub := if s.lastCodeSep > 0 || s.sepSeen then cur.drop (s.lastCodeSep + 1) else cur
     (match opCheckSig env sub s with
      | .ok s' => if v == 0xad then verifyTop "ErrCheckSigVerify" s' else .ok s'
      | r => r)
   | 0xae | 0xaf =>                                                   -- CHECKMULTISIG(VERIFY)
-    let sub := if s.lastCodeSep > 0 then cur.drop (s.lastCodeSep + 1) else cur
+    let sub := if s.lastCodeSep > 0 || s.sepSeen then cur.drop (s.lastCodeSep + 1) else cur
     (match opCheckMultiSig env sub s with
      | .ok s' => if v == 0xaf then verifyTop "ErrCheckMultiSigVerify" s' else .ok s'
      | r => r)
@@ -770,7 +775,7 @@ def runScript (env : Env) (sidx : Nat) (ops : List POp) (s : St) (tr : List Snap
   | (.returned s', tr) => (.byReturn { s' with numOps := 0, early := false }, tr)
   | (.finished s', tr) =>
     if !s'.cond.isEmpty then (.stop (.reject "ErrUnbalancedConditional"), tr)
-    else (.normal { s' with as := [], numOps := 0, early := false, lastCodeSep := 0 }, tr)
+    else (.normal { s' with as := [], numOps := 0, early := false, lastCodeSep := 0, sepSeen := false }, tr)
 
 def finalCheck (env : Env) (s : St) (tr : List Snap) : Verdict × List Snap :=
   match checkErrorCondition env true s with
